@@ -32,7 +32,9 @@ type ident struct {
 
 var names = []string{"alice", "system:serviceaccount:ns:sa", "system:anonymous", "a b", "ü", "%41", "kube:admin,cn=x"}
 var groupSets = [][]string{{}, {"g1"}, {"g1", "system:authenticated"}, {"g 2", "system:authenticated"}, {"system:masters", "g,3"}}
-var extras = []map[string][]string{nil, {"scopes": {"x"}}, {"k/1": {"v", "w"}}, {"Key": {"v"}}, {"%": {"v"}}, {"a b": {"v w", "ü"}, "scopes": {"s1", "s2"}}}
+// (keys that already look percent-encoded must be escaped once more, or the upstream decodes them into another key)
+var extras = []map[string][]string{nil, {"scopes": {"x"}}, {"k/1": {"v", "w"}}, {"Key": {"v"}}, {"%": {"v"}}, {"a b": {"v w", "ü"}, "scopes": {"s1", "s2"}},
+	{"example.com%2fscopes": {"v"}}, {"%41": {"v"}, "100%": {"w"}}, {"x%2": {"v"}, "é/k": {"v"}}}
 
 var authHeaders = [][]string{nil, {"Bearer client-token"}, {"Basic Y2xpZW50OnB3"}}
 var impUsers = []string{"", "bob", "system:serviceaccount:n:s", "system:anonymous"}
